@@ -41,6 +41,11 @@
 (*  thr[i]   [pc, c] of thread i;  canc  the thread inside Future.cancel() *)
 (*  gate     gates set (in the loop);  relreq  gates the environment opened*)
 (*                                                                         *)
+(* A thread inside start_task() is at pc "waitstart" until sfut[c] is     *)
+(* resolved; for kind "stw" (the callable waits at its gate BEFORE         *)
+(* started()) that is a quiescent state: the thread stays there until the  *)
+(* environment opens the gate or the task is cancelled.                    *)
+(*                                                                         *)
 (* Two races of the code can be switched on:                               *)
 (*  FutRace  _call_func's `if not future.cancelled(): future.set_result()` *)
 (*           is two critical sections (it is: Future.cancel() of a caller  *)
@@ -64,8 +69,8 @@ VARIABLES S, qd, hist, pst, pbad
 
 Calls == 0..NC
 Thr == 0..NT
-CoroKinds == {"ret", "fail", "block", "st", "stfail", "stop0", "stop1"}
-GateKinds == {"block", "st"}
+CoroKinds == {"ret", "fail", "block", "st", "stw", "stfail", "stop0", "stop1", "stop01"}
+GateKinds == {"block", "st", "stw"}
 
 Task0 == [st |-> "none", tc |-> FALSE, cb |-> FALSE, sc |-> FALSE, wk |-> "none",
           chk |-> FALSE, res |-> ""]
@@ -144,6 +149,11 @@ DoStop(s, cr) ==
       s2 == IF ~s.stopev /\ s.host = "sleep" THEN Enq(s1, [k |-> "host"]) ELSE s1
   IN IF cr THEN DeliverAll([s2 EXCEPT !.gcancel = TRUE], s2.gtasks) ELSE s2
 
+\* the body of a stop-kind callable (portal.stop has no checkpoint: one critical section);
+\* "stop01" = await portal.stop(); await portal.stop(cancel_remaining=True)
+StopBody(s, k) ==
+  IF k = "stop01" THEN DoStop(DoStop(s, FALSE), TRUE) ELSE DoStop(s, k = "stop1")
+
 \* first step of the task of call c: _call_func up to the first suspension
 FirstStep(s, c) ==
   LET k == s.kind[c] IN
@@ -163,9 +173,9 @@ FirstStep(s, c) ==
               [s |-> Epilogue(s1, c, "exc"),
                ev |-> <<[ev |-> "exec", c |-> c], [ev |-> "bend", c |-> c, how |-> "raise"]>>]
          [] k \in StopKinds ->
-              [s |-> Epilogue(DoStop(s1, k = "stop1"), c, "val"),
+              [s |-> Epilogue(StopBody(s1, k), c, "val"),
                ev |-> <<[ev |-> "exec", c |-> c], [ev |-> "bend", c |-> c, how |-> "ret"]>>]
-         [] k = "block" ->
+         [] k \in {"block", "stw"} ->      \* "stw": parks BEFORE task_status.started(): sfut stays pending
               [s |-> Park(s1, c), ev |-> <<[ev |-> "exec", c |-> c]>>]
          [] k = "st" ->
               [s |-> Park([s1 EXCEPT !.sfut[c] = IF @ = "pending" THEN "val" ELSE @], c),
@@ -176,8 +186,12 @@ Wake(s, c) ==
   IF s.task[c].wk = "cancel"
     THEN [s |-> CancelledExit([s EXCEPT !.task[c].wk = "none"], c),
           ev |-> <<[ev |-> "bend", c |-> c, how |-> "cancelled"]>>]
-    ELSE [s |-> Epilogue([s EXCEPT !.task[c].wk = "none"], c, "val"),
-          ev |-> <<[ev |-> "bend", c |-> c, how |-> "ret"]>>]
+    ELSE \* the gate is open; "stw" now calls task_status.started(SVal(c)) and returns at once
+         LET s1 == [s EXCEPT !.task[c].wk = "none"]
+             s2 == IF s.kind[c] = "stw" /\ s.sfut[c] = "pending"
+                     THEN [s1 EXCEPT !.sfut[c] = "val"] ELSE s1
+         IN [s |-> Epilogue(s2, c, "val"),
+             ev |-> <<[ev |-> "bend", c |-> c, how |-> "ret"]>>]
 
 \* run_sync_from_thread's wrapper: TaskGroup.start_soon(_call_func, ...) for the call of thread i
 Spawn(s, i) ==
